@@ -67,7 +67,8 @@ Inductive allowance :=
     (* normal completion: exactly these bytes were delivered, trailers handed over iff trl, exactly these frames
        written, stream finished, no reset / stop_sending *)
 | AErr (k : errclass) (code : option N) (aborts : list call) (upto : bytes) (tx : option (list witem)).
-    (* that stream-level error; exactly these reset/stop_sending calls; the delivered bytes are a prefix of
+    (* that stream-level error; these reset/stop_sending calls were made on the stream (in any order: the
+       property does not constrain how a faulted stream is torn down); the delivered bytes are a prefix of
        [upto]; frames written as given when constrained *)
 
 (* a failed receive half: RemoteTerminate with the peer's code for a RESET, Undefined for a transport-specific failure *)
@@ -247,7 +248,7 @@ Definition sat1 (o : observed) (a : allowance) : bool :=
       && Bool.eqb (ob_trl o) trl
   | AErr k code aborts upto tx, OStreamErr k' code' =>
       errclass_eqb k k' && optN_eqb code code'
-      && list_eqb call_eqb (filter is_abort (ob_calls o)) aborts
+      && forallb (fun a => existsb (call_eqb a) (ob_calls o)) aborts
       && prefixb (ob_data o) upto
       && match tx with Some t => list_eqb witem_eqb (ob_tx o) t | None => true end
   | _, _ => false
